@@ -65,6 +65,15 @@ def paths_mismatch_equal_counts(u):
     return False
 
 
+def neutralise(spec, v, u):
+    """C07's neutraliser restricted to the classes that matter for C08 (the Rfc7807Error component stays)."""
+    spec2, applied = C07.neutralise(spec, v, u)
+    if C07.CLS_RFC in applied:
+        applied.discard(C07.CLS_RFC)
+        spec2["components"]["schemas"]["Rfc7807Error"] = spec["components"]["schemas"]["Rfc7807Error"]
+    return spec2, applied
+
+
 def pick_route(rng, u, want=None):
     cands = [(ci, ri) for ci, c in enumerate(u["ctrls"]) for ri, r in enumerate(c["routes"])
              if not r["hidden"] and (want is None or want(r))]
@@ -205,7 +214,7 @@ def main():
                         break
 
     universes = [u for _, u in items]
-    sentinel = set(k for k, (label, _) in enumerate(items) if label not in ("accepted-stream",) and k % 2 == 0)
+    sentinel = set(k for k, (label, _) in enumerate(items) if label not in ("accepted-stream",) and rng.random() < 0.5)
     obs = T.run_universes(PROP, universes, sentinel=sentinel)
 
     cases, meta = [], []
@@ -228,11 +237,10 @@ def main():
                 hard.append((k, v, "the spec file is not JSON"))
             cases.append((v, u, o["spec"]))
             meta.append((k, v, "raw", set()))
-            spec2, applied = C07.neutralise(o["spec"], v, u)
-            applied.discard(C07.CLS_RFC)
-            if CLS_ENUM30 in applied:
+            spec2, applied = neutralise(o["spec"], v, u)
+            if applied:
                 cases.append((v, u, spec2))
-                meta.append((k, v, "neutral", {CLS_ENUM30}))
+                meta.append((k, v, "neutral", applied))
     ev = S.evaluate(PROP, cases)
     neutral_of = {(k, v): i for i, (k, v, kind, _) in enumerate(meta) if kind == "neutral"}
 
@@ -241,7 +249,7 @@ def main():
 
     def unexplained_failure(u, v, spec):
         """Clauses failing after neutralising the known classes, or a text for an unprojectable file."""
-        spec2, applied = C07.neutralise(spec, v, u)
+        spec2, applied = neutralise(spec, v, u)
         e = S.evaluate(PROP, [(v, u, spec2)], "shrink")
         if e["unprojectable"]:
             return "unprojectable: " + e["unprojectable"][0]
@@ -272,7 +280,7 @@ def main():
         rest = set(ev["c08_fail"][i])
         if j is not None and j not in ev["unprojectable"]:
             rest = set(ev["c08_fail"].get(j, []))
-            classes.add(CLS_ENUM30)
+            classes |= set(meta[j][3])
         if 2 in rest and paths_mismatch_equal_counts(u):
             rest.discard(2)
             classes.add(CLS_PATHS)
@@ -310,7 +318,9 @@ def main():
                                 "the schema type, info/servers/securitySchemes are the configuration's"})
 
     # ---- correspondence: the model of the command (document or failure) against the implementation
-    disagree = [i for i in ev["disagree_doc"] if meta[i][2] == "raw" and not C07.has_same_named(universes[meta[i][0]])]
+    retyped = set((m[0], m[1]) for m in meta if m[2] == "neutral" and C07.CLS_YAML31 in m[3])
+    disagree = [i for i in ev["disagree_doc"] if meta[i][2] == "raw" and not C07.has_same_named(universes[meta[i][0]])
+                and (meta[i][0], meta[i][1]) not in retyped]
     if disagree and not res.violations:
         i = disagree[0]
         k, v, _, _ = meta[i]
